@@ -88,6 +88,15 @@ def fmt_pieces(text):
     return [text]
 
 
+def exact_number_text(value, dots=None):
+    """positional decimal text that float() reads back as exactly `value`; without a decimal point when dots == 0"""
+    from decimal import Decimal
+    if dots == 0:
+        return str(int(value))
+    t = format(Decimal(float(value)), 'f')
+    return t if '.' in t else t + '.0'
+
+
 def rope_fmt(value, prec, kind='f'):
     return f'{float(value):.{prec}f}'
 
@@ -102,3 +111,25 @@ def stub(target, fn):
 
 def fs_initially(what, path):
     raise NotImplementedError('the ghost file system exists only in the symbolic run')
+
+
+def is_nonfinite(v):
+    return isinstance(v, float) and (math.isnan(v) or math.isinf(v))
+
+
+def is_text(v):
+    return isinstance(v, str)
+
+
+def unsupported(msg='unsupported'):
+    raise NotImplementedError(msg)
+
+
+def piece_value(piece):
+    return piece[1]
+
+
+def model_limit(name, c):
+    if not c:
+        raise NotImplementedError('outside the modelled range: ' + name)
+    return True
